@@ -428,6 +428,9 @@ func (env *SpecEnv) tryLookup(name string) (*Val, bool) {
 		if env.fr.c != nil {
 			for _, ac := range env.fr.c.AtCalls {
 				if ac.Kind == "let" && ac.Let == name {
+					if !env.fr.letHasSite(name) {
+						env.fail("ghost let %s can never be bound: no call in the function matches its pattern", name)
+					}
 					if proto, ok := env.fr.vc.letTypes[name]; ok {
 						return &Val{T: env.fr.vc.S.FreshConst("unbound."+name, env.fr.vc.sortOfVal(proto)), Typ: proto.Typ}, true
 					}
@@ -1502,4 +1505,55 @@ func patternOK(t Term) bool {
 		}
 	}
 	return true
+}
+
+// letHasSite: does any call instruction of the function match the pattern of some let that binds name?
+func (fr *Frame) letHasSite(name string) bool {
+	if fr.c == nil {
+		return true
+	}
+	for _, ac := range fr.c.AtCalls {
+		if ac.Kind != "let" || ac.Let != name {
+			continue
+		}
+		pat := ac.Callee
+		if i := strings.LastIndex(pat, "#"); i > 0 {
+			pat = pat[:i]
+		}
+		if strings.HasPrefix(pat, "builtin.") {
+			return true
+		}
+		var scan func(fn *ssa.Function, depth int) bool
+		scan = func(fn *ssa.Function, depth int) bool {
+			for _, b := range fn.Blocks {
+				for _, in := range b.Instrs {
+					ci, ok := in.(ssa.CallInstruction)
+					if !ok {
+						continue
+					}
+					cc := ci.Common()
+					callee := cc.StaticCallee()
+					if calleeMatches(calleeName(cc, callee), pat) {
+						return true
+					}
+					// calls inside helpers that are inlined are program points of this function too
+					if callee != nil && callee.Blocks != nil && depth < 3 && fr.vc.P.ContractFor(callee) == nil {
+						if scan(callee, depth+1) {
+							return true
+						}
+					}
+				}
+			}
+			for _, an := range fn.AnonFuncs {
+				if depth < 3 && scan(an, depth+1) {
+					return true
+				}
+			}
+			return false
+		}
+		if scan(fr.fn, 0) {
+			return true
+		}
+	}
+	return false
 }
